@@ -61,8 +61,9 @@ CHECKS["C11"] = {
             "every other service and record is unchanged and all services stay well formed.",
     "note": "Service listing index (unit serviceindex, real NamespaceIndex / ServiceIndex): insert/remove change the key set by exactly the key; query_service_page returns total = "
             "length of THE canonical match list and page = its window; spec lemmas: every listed service is stored, matches, lies in a permitted namespace, and is listed exactly once. "
-            "NOT under contract: that NamingActor keeps the index in step with service_map (create_empty_service is assumed: creates an empty well-formed service; "
-            "clear_one_empty_service: iterator adapters) — chrono / NamingUtils / iterator adapters; the global invariant 'every recorded key names an instance of that client' is NOT claimed "
+            "NOT proved: that NamingActor keeps the index in step with service_map, the empty-service clean-up, and the GLOBAL invariants over operation sequences — a BOUNDED "
+            "stand-in runs on every check (every sequence of <= 4 out of 15 operations on the real NamingActor, the full statement of C11 checked after every step), labelled bounded "
+            "(create_empty_service is assumed in the contracts: creates an empty well-formed service) — chrono / NamingUtils / iterator adapters; the global invariant 'every recorded key names an instance of that client' is NOT claimed "
             "(only each operation's exact effect on the record); get_all_instances not under contract; TimeoutSet and Addr are shims; A-KEY for the key types.",
 }
 CHECKS["C12"] = {
